@@ -180,6 +180,15 @@ func runOneCompile(id int, doc map[string]interface{}, wellFormed bool, dir stri
 		s, err := compileDoc(doc, "json", dir, id)
 		if err != nil {
 			obs["doc"] = map[string]interface{}{"err": compileErrClass(err)}
+			// a rejected compile leaves the spec as it was: compiling the same value again is
+			// rejected for the same reason (a host that retries, or reports and retries)
+			js, _ := json.Marshal(doc)
+			var s2 core.Spec
+			if json.Unmarshal(js, &s2) == nil {
+				e1 := s2.Compile(context.Background(), nil, true)
+				e2 := s2.Compile(context.Background(), nil, true)
+				probe["compileRetrySame"] = (e1 == nil) == (e2 == nil) && (e1 == nil || compileErrClass(e1) == compileErrClass(e2))
+			}
 		} else {
 			obs["doc"] = map[string]interface{}{"ok": compiledJSON(s)}
 		}
@@ -342,6 +351,25 @@ func runCompile(cfg Config) {
 			doc = d2
 		case 9:
 			doc["nodes"] = nil
+		case 12:
+			// two things at once: bare string / bare variable patterns written as JSON text, and a
+			// spec that is rejected while its nodes are being compiled
+			for _, name := range names {
+				if n, _ := nodes[name].(map[string]interface{}); n != nil {
+					if br, is := n["branching"].(map[string]interface{}); is {
+						bs, _ := br["branches"].([]interface{})
+						br["branches"] = append(bs, map[string]interface{}{"pattern": g.Pick("?whole", "str", "1"), "target": "start"})
+					}
+				}
+			}
+			doc = textPatterns(doc)
+			if dn, _ := doc["nodes"].(map[string]interface{}); len(dn) > 0 {
+				ks := gen.SortedKeys(dn)
+				if n, _ := dn[ks[g.Intn(len(ks))]].(map[string]interface{}); n != nil {
+					n["action"] = map[string]interface{}{"interpreter": "cobol", "source": "return _.bindings;"}
+					wellFormed = false
+				}
+			}
 		}
 		mark(i)
 		enc.Encode(runOneCompile(i, doc, wellFormed, dir))
